@@ -103,6 +103,11 @@ def _input_syms_for(self, vc, model):
         def __init__(s, model):
             s.model = model
             s.fresh_ctr = {}
+            s.env = {}
+            s.pc = []
+
+        def assume(s, cond):
+            pass
 
         def choose(s, cond, tag=''):
             return z3.is_true(s.model.eval(cond, model_completion=True))
@@ -115,6 +120,7 @@ def _input_syms_for(self, vc, model):
     for name, sort in self.c.params.items():
         try:
             res[name] = sort.make(pr, name) if isinstance(sort, PSort) else sort
+            pr.env[name] = res[name]
         except Exception:
             res[name] = None
     for name, sort in self.c.ghost.items():
